@@ -54,7 +54,7 @@ CInit ==
   /\ ls = [pc |-> "off", i |-> 0, timer |-> 0, msg |-> NONE]
   /\ lsown = FALSE /\ intr = "off" /\ dl = FALSE /\ lw = "off" /\ linkEv = FALSE
   /\ ipc = <<>> /\ inbox = <<>> /\ fwd = Trace[l].fwd /\ held = {}
-  /\ rq = ReqInit([unicast |-> UnicastOnly, cfglife |-> CfgLife, mon |-> FALSE, strict |-> Trace[l].strict,
+  /\ rq = ReqInit([unicast |-> UnicastOnly, cfglife |-> CfgLife, mon |-> MonitorMode, strict |-> Trace[l].strict,
                    quiet |-> Trace[l].quiet, miniv |-> Trace[l].min, maxiv |-> Trace[l].max])
   /\ nIn = 0 /\ nFlip = 0 /\ nHold = 0 /\ nQuery = 0
 
